@@ -318,9 +318,11 @@ func runC18(env *core.Env) {
 			samples.add(map[string]interface{}{"configuration": desc, "expected_store_level": expLevel})
 		}
 	})
+	seqCov := c18Sequences(env)
 	validated := conf.run(env)
 	env.Finish("model_checking", map[string]interface{}{
-		"states": len(jobs), "transitions": evals, "traces_validated_against_impl": validated, "samples": samples.list,
+		"both_files_sequences": seqCov,
+		"states":               len(jobs), "transitions": evals, "traces_validated_against_impl": validated, "samples": samples.list,
 		"evaluations": evals, "distinct_nontrivial": classes.len(), "exhaustive": env.TimeLeft(), "configurations": len(jobs),
 		"rule":                   "all 27 layouts of a 3-level tree (.ergo absent / directory / regular file per level) x start directory at every level x up to 9 spellings (cwd, --dir absolute, absolute with trailing slash, '.', '..', relative name, './x/../x', the .ergo directory itself absolute and relative) + all 8 presence combinations of {plans.jsonl, events.jsonl, lock} x 10 commands, plus 3 forms of init on every existing store; distinct = (command, spelling, expected store, exit)",
 		"unconfirmed_candidates": unconfirmed.Load(),
@@ -351,5 +353,166 @@ func changedDirs(before, after core.Store) []string {
 		out = append(out, d)
 	}
 	sort.Strings(out)
+	return out
+}
+
+// c18Sequences: a store holding both log files must behave, over every command sequence, exactly like the same
+// store without the file it does not use - the other file is never read, never written and never becomes "the" log.
+// Which file the store uses is taken from the implementation (a probing `new task`), not assumed.
+func c18Sequences(env *core.Env) map[string]interface{} {
+	mk := func(title string, n int64, done bool) []byte {
+		l := newSynLog()
+		id := core.IDFor(8100 + n)
+		l.Create(SynItem{ID: id, Title: title})
+		if done {
+			l.State(id, "done")
+		}
+		return l.Bytes()
+	}
+	type cfg struct {
+		name         string
+		plans, event []byte
+	}
+	cfgs := []cfg{
+		{"both-non-empty", mk("in-plans", 0, false), mk("in-events", 1, false)},
+		{"both-non-empty-plans-all-done", mk("in-plans", 0, true), mk("in-events", 1, false)},
+		{"plans-empty-events-non-empty", []byte{}, mk("in-events", 1, false)},
+		{"plans-non-empty-events-empty", mk("in-plans", 0, false), []byte{}},
+		{"both-non-empty-events-all-done", mk("in-plans", 0, false), mk("in-events", 1, true)},
+	}
+	ops := []string{"new", "done-first", "prune", "compact", "claim", "plan"}
+	depth := 4
+	if env.Thorough() {
+		depth = 5
+	}
+	var paths [][]int
+	var rec func(p []int)
+	rec = func(p []int) {
+		if len(p) == depth {
+			paths = append(paths, append([]int{}, p...))
+			return
+		}
+		for i := range ops {
+			rec(append(p, i))
+		}
+	}
+	rec(nil)
+	type job struct {
+		c    cfg
+		path []int
+	}
+	var jobs []job
+	for _, c := range cfgs {
+		for _, p := range paths {
+			jobs = append(jobs, job{c, p})
+		}
+	}
+	var steps, compared int64
+	used := newCounter()
+	env.Parallel(len(jobs), func(w *core.Worker, i int) {
+		if !env.TimeLeft() {
+			return
+		}
+		j := jobs[i]
+		both := core.Store{".ergo/plans.jsonl": j.c.plans, ".ergo/events.jsonl": j.c.event, ".ergo/lock": nil}
+		// probe: which file does a mutation land in?
+		both.Materialize(w.Proj)
+		w.Run(core.Req{Cwd: w.Proj, Args: []string{"--json", "new", "task"}, RandBase: 30}.In(`{"title":"probe"}`))
+		probed, _ := core.Snapshot(w.Proj)
+		usedFile := ""
+		for _, f := range []string{".ergo/plans.jsonl", ".ergo/events.jsonl"} {
+			if string(probed[f]) != string(both[f]) {
+				usedFile += f
+			}
+		}
+		if usedFile != ".ergo/plans.jsonl" && usedFile != ".ergo/events.jsonl" {
+			report(env, "C18 kind=both-files-mutation-lands-in-no-single-log cfg="+j.c.name, "new task changed: "+usedFile, mkTrace(both, j.c.name, []core.Req{core.R("", "--json", "new", "task").In(`{"title":"probe"}`)}))
+			return
+		}
+		used.inc(j.c.name + " uses " + usedFile)
+		other := ".ergo/plans.jsonl"
+		if usedFile == other {
+			other = ".ergo/events.jsonl"
+		}
+		single := both.Clone()
+		delete(single, other)
+		cur := map[string]core.Store{"both": both, "single": single}
+		var trace []core.Req
+		for si, oi := range j.path {
+			var obs [2]core.Obs
+			var reqShown core.Req
+			for k, name := range []string{"both", "single"} {
+				st := cur[name]
+				st.Materialize(w.Proj)
+				var req core.Req
+				switch ops[oi] {
+				case "new":
+					req = core.R("", "--json", "new", "task").In(`{"title":"n"}`)
+				case "done-first":
+					o := core.ObserveW(w, w.Proj)
+					target := "ZZZZZZ"
+					for _, it := range o.All {
+						if it.State != "done" {
+							target = it.ID
+							break
+						}
+					}
+					req = core.R("", "--json", "set", target).In(`{"state":"done"}`)
+				case "prune":
+					req = core.R("", "--json", "prune", "--yes")
+				case "compact":
+					req = core.R("", "--json", "compact")
+				case "claim":
+					req = core.R("", "--json", "claim", "--agent", "z")
+				case "plan":
+					req = core.R("", "--json", "plan").In(`{"title":"P","tasks":[{"title":"pa"}]}`)
+				}
+				reqShown = req
+				req.Cwd = w.Proj
+				req.RandBase = int64(50 + 10*si)
+				w.Run(req)
+				atomic.AddInt64(&steps, 1)
+				obs[k] = core.ObserveW(w, w.Proj)
+				after, _ := core.Snapshot(w.Proj)
+				if name == "both" && string(after[other]) != string(both[other]) {
+					report(env, "C18 kind=both-files-other-log-written cfg="+j.c.name+" cmd="+opClass(req), fmt.Sprintf("%s: the store uses %s, yet %s changed after %v", j.c.name, usedFile, other, ops[oi]),
+						mkTrace(both, j.c.name, append(append([]core.Req{}, trace...), reqShown), Assert{Kind: "exit_zero", Step: len(trace) + 1}))
+					return
+				}
+				if name == "single" {
+					if _, ok := after[other]; ok {
+						report(env, "C18 kind=second-log-file-created-in-sequence cfg="+j.c.name+" cmd="+opClass(req), fmt.Sprintf("%s appeared after %v", other, ops[oi]),
+							mkTrace(single, j.c.name, append(append([]core.Req{}, trace...), reqShown), Assert{Kind: "exit_zero", Step: len(trace) + 1}))
+						return
+					}
+				}
+				cur[name] = after
+			}
+			trace = append(trace, reqShown)
+			atomic.AddInt64(&compared, 1)
+			if a, b := obs[0].Norm(nil), obs[1].Norm(nil); a != b {
+				var lit []core.Req // the literal requests incl. the scripted ids
+				for k, r := range trace {
+					r.RandBase = int64(50 + 10*k)
+					lit = append(lit, r)
+				}
+				tr := mkTrace(both, j.c.name+": alt branch = same commands on the store without "+other, lit)
+				tr.Alt = tr.Steps
+				tr.AltSt = single
+				tr.FailIf = []Assert{{Kind: "alt_differs", Step: len(trace)}}
+				report(env, "C18 kind=both-files-store-switches-log cfg="+j.c.name+" after="+ops[oi], fmt.Sprintf("%s: after %v the store with both files reads differently from the same store without %s: %s", j.c.name, opsOf(ops, j.path[:si+1]), other, firstDiff(b, a)), tr)
+				return
+			}
+		}
+	})
+	return map[string]interface{}{"configurations": len(cfgs), "paths_per_configuration": len(paths), "depth": depth, "commands_run": steps, "steps_compared": compared, "log_in_use": used.snapshot(),
+		"rule": "5 fillings of {plans.jsonl, events.jsonl} x every sequence of length 4 (thorough 5) over {new task, close first open task, prune --yes, compact, claim, plan}; after every step the store must read exactly like the twin store that lacks the unused file, and the unused file must be byte-identical"}
+}
+
+func opsOf(names []string, idx []int) []string {
+	var out []string
+	for _, i := range idx {
+		out = append(out, names[i])
+	}
 	return out
 }
